@@ -275,6 +275,9 @@ def run(harness_names: List[str], tier: str = "quick", jobs: int = 16, harness_t
             if build_failed:
                 hr.reason = "build of the scratch copy failed under cfg(kani) (harness no longer compiles against /repo): " + _first_error(logtxt)
                 continue
+            if os.path.exists(rf) and "CBMC timed out" in open(rf, errors="replace").read():
+                hr.reason = f"CBMC timed out after {harness_timeout}s"
+                continue
             if not os.path.exists(rf):
                 hr.reason = "no result file (timeout or kani error); see " + log
                 if f"{h.fq}" in logtxt and "timed out" in logtxt:
